@@ -11,13 +11,16 @@ UserClassesDef == {"A", "B", "C", "D", "E"}
 PromotionsDef == {<<"int", "float">>}
 LitBaseDef == [Lit1 |-> "int", Lit2 |-> "int", LitA |-> "str", LitTrue |-> "bool"]
 OtherAtomsDef == {"Any", "P", "ImplA", "ImplB", "PGA", "CoB", "Col", "ColR", "ColG", "TD1", "TD2", "NT",
-                  "type", "TypeT", "TypeTB", "T", "TB", "TV", "Rec", "Rec2", "PRec", "ImplRec", "Tuple0", "CallAny", "CallT"}
+                  "type", "TypeT", "TypeTB", "T", "TB", "TV", "Rec", "Rec2", "PRec", "ImplRec", "Tuple0", "CallAny", "CallT",
+                  \* metaclasses and classes that have one; class objects; overloaded functions (declared names)
+                  "Meta", "OtherMeta", "SubMeta", "WM", "WMSub", "WO",
+                  "ObjA", "ObjB", "ObjWM", "ObjWO", "Ov1", "Ov2", "Ov3", "Ov4", "Ov5"}
 UOpsDef == {"Inv", "Co", "Contra", "VarTuple", "Opt", "Seq", "PG", "PContra"}
 FnKindsDef == {"FnPos", "FnNamed", "FnOpt", "FnOptNamed", "FnStar", "FnKw", "FnKwOpt", "FnStar2"}
 
 \* ---- quick universe
 UArgsQ == {"A", "B", "E", "int", "float", "Any", "None", "TB"}
-TypeArgsQ == {"A", "B", "D", "E", "int", "float", "Any"}
+TypeArgsQ == {"A", "B", "D", "E", "int", "float", "Any", "WM", "WMSub", "WO"}
 TupArgsQ == {"A", "B", "int", "Any"}
 UnionArgsQ == <<"A", "B", "E", "int", "None", "Lit1", "str", "T", "Any">>
 FnArgsQ == {"A", "B"}
@@ -30,7 +33,13 @@ ExtrasQ == { Mk("Tuple3", <<Atom("A"), Atom("B"), Atom("C")>>),
              Mk("Co", <<Mk("Inv", <<Atom("B")>>)>>),
              Mk("Contra", <<Mk("Union", <<Atom("T"), Atom("Any")>>)>>),
              Mk("PContra", <<Mk("Union", <<Atom("T"), Atom("Any")>>)>>),
-             Mk("Union", <<Atom("A"), Atom("B"), Atom("E")>>) }
+             Mk("Union", <<Atom("A"), Atom("B"), Atom("E")>>),
+             Mk("TypeOf", <<Mk("Union", <<Atom("WM"), Atom("A")>>)>>),
+             Mk("TypeOf", <<Mk("Union", <<Atom("WM"), Atom("WO")>>)>>),
+             Mk("FnPos", <<Atom("E"), Atom("E")>>), Mk("FnNamed", <<Atom("E"), Atom("E")>>),
+             Mk("FnNamed", <<Atom("C"), Atom("C")>>), Mk("FnPos", <<Atom("A"), Atom("object")>>),
+             Mk("Union", <<Mk("FnPos", <<Atom("A"), Atom("A")>>), Atom("A")>>),
+             Mk("Fn2Named", <<Atom("A"), Atom("A"), Atom("A")>>) }
 SimpAtomsQ == <<"A", "B", "D", "E", "int", "bool", "float", "None", "Lit1", "LitTrue", "ColR", "ColG", "Col", "Any">>
 
 \* ---- thorough universe (the driver adds seeded random depth-2 terms on top)
